@@ -156,7 +156,7 @@ def run(ctx):
     chk.extra["matcher_method_table"] = table
 
     # R2: 204 only under method == OPTIONS
-    r2 = chk.rule("R2-204-only-for-OPTIONS", "the 204 status entry is selected only in blocks dominated by the true edge of `method == OPTIONS`", floor=2)
+    r2 = chk.rule("R2-204-only-for-OPTIONS", "the 204 status entry is selected only in blocks dominated by the true edge of `method == OPTIONS`", floor=1)
     for n in sorted(seen):
         fn = F.fns.get(n)
         if fn is None or fn.crate != "rws" or fn.kind == "Promoted":
@@ -172,7 +172,7 @@ def run(ctx):
                 e = status_entry_of(du.val_rvalue(s["rv"], 0, bid))
                 if e == "const:n204_no_content" and s["rv"]["k"] in ("use", "ref") and not s["place"]["p"]:
                     # assignment of the 204 entry itself to a local (status selection)
-                    if fn.local_ty(s["place"]["l"]).endswith("StatusCodeReasonPhrase") and fn.local_name(s["place"]["l"]):
+                    if fn.local_ty(s["place"]["l"]).endswith("StatusCodeReasonPhrase") and (fn.local_name(s["place"]["l"]) or s["place"]["l"] == 0):
                         ok = bool(opt_edges) and cfg.edges_dominate(opt_edges, bid)
                         r2.instance({"fn": n, "line": s["span"]["line"], "under_method_eq_OPTIONS": ok}, ok)
                         if not ok:
